@@ -17,6 +17,8 @@ for f in sorted(glob.glob(os.path.join(ROOT, 'seeded', '*', 'meta.json'))):
     for p, v in sorted(checks.items()):
         rc = v.get('rc')
         verdict = {1: 'VIOLATION', 0: 'missed', 2: 'machinery failure'}.get(rc, str(rc))
+        if rc == 'timeout' and v.get('violations', 0) > 0:
+            verdict = 'VIOLATION (then cut off by the seed runner\'s time limit, machine under load)'
         sigs = sorted(set(s.split('signature: ')[-1] for s in v.get('signatures', [])))
         names = sorted(set(x.split(':')[2] if x.count(':') >= 2 else x for x in sigs))
         cells.append('%s: %s%s (%ss)' % (p, verdict, (' -- ' + ', '.join(names[:3])) if names else '',
